@@ -128,7 +128,8 @@ func (t DPoP) GenerateProof(accessToken string) DPoP {
 // Parse parses a DPoP token from a string.
 // The token is validated for the required claims and headers.
 func Parse(s string) (*DPoP, error) {
-	message, err := jws.ParseString(s)
+	// only the compact serialization: in the JSON serialization jwt.ParseString could take the claims from unsigned members
+	message, err := jws.Parse([]byte(s), jws.WithCompact())
 	if err != nil {
 		return nil, errors.Join(ErrInvalidDPoP, err)
 	}
